@@ -57,10 +57,16 @@ GEN_DISTS = {
     "random": {}, "normal": {"loc": 1.0, "scale": 2.0}, "uniform": {"low": -1.0, "high": 3.0}, "standard_normal": {},
     "integers": {"low": 0, "high": 1000}, "poisson": {"lam": 3.0}, "exponential": {"scale": 2.0}, "gamma": {"shape": 2.0},
     "binomial": {"n": 10, "p": 0.3}, "beta": {"a": 2.0, "b": 3.0},
+    # the same method with a dtype / endpoint keyword ("_m" = the method name)
+    "random:f4": {"_m": "random", "dtype": "float32"},
+    "integers:i4": {"_m": "integers", "low": -5, "high": 1000, "dtype": "int32", "endpoint": True},
+    "integers:u1": {"_m": "integers", "low": 0, "high": 200, "dtype": "uint8"},
+    "standard_normal:f4": {"_m": "standard_normal", "dtype": "float32"},
 }
 RS_DISTS = {
     "random_sample": {}, "normal": {"loc": 1.0, "scale": 2.0}, "uniform": {"low": -1.0, "high": 3.0}, "standard_normal": {},
     "randint": {"low": 0, "high": 1000}, "poisson": {"lam": 3.0}, "exponential": {"scale": 2.0}, "binomial": {"n": 10, "p": 0.3},
+    "randint:i4": {"_m": "randint", "low": -5, "high": 1000, "dtype": "int32"},
 }
 
 # the history section uses (nearly) every distribution method of both APIs
@@ -76,10 +82,10 @@ GEN_ALL.update({
     "logseries": {"p": 0.6}, "multinomial": {"n": 50, "pvals": [0.2, 0.3, 0.5]},
 })
 RS_ALL = dict(RS_DISTS)
-RS_ALL.update({k: v for k, v in GEN_ALL.items() if k not in ("random", "integers")})
+RS_ALL.update({k: v for k, v in GEN_ALL.items() if k not in ("random", "integers") and ":" not in k})
 RS_ALL.update({"random_integers": {"low": 0, "high": 1000}, "tomaxint": {}})
 # methods whose single draw is (practically) never repeated: two successive draws of >= 6 values must differ
-RICH = {"random", "random_sample", "normal", "uniform", "standard_normal", "integers", "randint", "exponential", "gamma", "beta",
+RICH = {"random:f4", "integers:i4", "standard_normal:f4", "randint:i4", "random", "random_sample", "normal", "uniform", "standard_normal", "integers", "randint", "exponential", "gamma", "beta",
         "chisquare", "gumbel", "laplace", "logistic", "lognormal", "pareto", "power", "rayleigh", "standard_cauchy",
         "standard_exponential", "standard_gamma", "standard_t", "triangular", "vonmises", "wald", "weibull",
         "noncentral_chisquare", "f", "noncentral_f", "random_integers", "tomaxint"}
@@ -93,8 +99,16 @@ def _da():
 
 
 def make(rng, api, dist, size, chunks):
-    kw = dict((GEN_DISTS if api == "gen" else RS_DISTS)[dist])
-    return getattr(rng, dist)(size=tuple(size), chunks=tuple(tuple(c) for c in chunks), **kw)
+    kw = dict((GEN_ALL if api == "gen" else RS_ALL)[dist])
+    return getattr(rng, kw.pop("_m", dist))(size=tuple(size), chunks=tuple(tuple(c) for c in chunks), **kw)
+
+
+def numpy_dtype(api, dist):
+    """dtype NumPy itself returns for the same method and keywords"""
+    kw = dict((GEN_ALL if api == "gen" else RS_ALL)[dist])
+    m = kw.pop("_m", dist)
+    ref = np.random.default_rng(0) if api == "gen" else np.random.RandomState(0)
+    return np.asarray(getattr(ref, m)(size=(2,), **kw)).dtype
 
 
 def new_rng(da, api, seed):
@@ -201,6 +215,11 @@ def case_values(ctx, inp):
     base = np.asarray(_compute(x, "sync"))
     if base.shape != tuple(size):
         ctx.fail("random array has the wrong shape", observed=list(base.shape), expected=size)
+    want_dt = numpy_dtype(api, dist)
+    if base.dtype != want_dt or x.dtype != want_dt:
+        ctx.fail(f"{dist}: dtype differs from NumPy's for the same call", observed=[str(x.dtype), str(base.dtype)], expected=str(want_dt))
+    if ":" in dist:
+        ctx.branch("dtype keyword")
     again = np.asarray(_compute(x, "sync"))
     if not np.array_equal(base, again):
         ctx.fail("recomputation of the same random array gives different values", observed=again.tolist(), expected=base.tolist())
@@ -233,8 +252,8 @@ def case_unseeded(ctx, inp):
     da = _da()
     api, dist, size, chunks, how = inp["api"], inp["dist"], inp["size"], inp["chunks"], inp["how"]
     if how == "module":
-        f = getattr(da.random, dist)
         kw = dict(RS_DISTS[dist])
+        f = getattr(da.random, kw.pop("_m", dist))
         a = f(size=tuple(size), chunks=tuple(tuple(c) for c in chunks), **kw)
         b = f(size=tuple(size), chunks=tuple(tuple(c) for c in chunks), **kw)
     elif how == "one-rng":
@@ -355,8 +374,7 @@ def case_perm(ctx, inp):
 def _hist_build(da, rng, api, op):
     k = op["kind"]
     if k == "dist":
-        kw = dict((GEN_ALL if api == "gen" else RS_ALL)[op["dist"]])
-        return getattr(rng, op["dist"])(size=tuple(op["size"]), chunks=tuple(tuple(c) for c in op["chunks"]), **kw)
+        return make(rng, api, op["dist"], op["size"], op["chunks"])
     if k == "choice":
         pop = op["pop"]
         a = pop if isinstance(pop, int) else da.from_array(np.array(pop), chunks=max(1, len(pop) // 2))
